@@ -117,6 +117,18 @@ def run_defs(defs, tier, timeout=1500, jobs=None, extra_flags=LAYERC_FLAGS):
         harnesses = ["%s::step" % d["name"] for d in ds]
         share = max(1, total_jobs * len(ds) // max(1, len(defs)))
         res, outs, cmd, wall = K.run_cargo_kani(root, harnesses, timeout=timeout, jobs=share, extra_flags=extra_flags)
+        roots = {d["name"]: root for d in ds}
+        if len(ds) > 1 and all(res.get(h) is None for h in harnesses):
+            # the crate of the group does not build (typically the macro panics on ONE of its definitions - C12's business): every
+            # definition gets its own crate, so that the others are still checked
+            res, outs2 = {}, {}
+            for d in ds:
+                r1 = build_crate("g%d_%d_%s" % (N, m, d["name"]), [(d, m, unwind_bound(d, N, m), not d.get("width"))], N, m)
+                rr, oo, cmd, _w = K.run_cargo_kani(r1, ["%s::step" % d["name"]], timeout=timeout, jobs=share, extra_flags=extra_flags)
+                res.update(rr)
+                outs2["%s::step" % d["name"]] = oo.get("%s::step" % d["name"], oo.get("codegen", ""))
+                roots[d["name"]] = r1
+            outs = dict(outs, **outs2)
         rows = []
         for d in ds:
             h = "%s::step" % d["name"]
@@ -124,7 +136,7 @@ def run_defs(defs, tier, timeout=1500, jobs=None, extra_flags=LAYERC_FLAGS):
             if r is None:
                 r = {"harness": h, "status": "undecided", "failed_checks": [], "time_s": None, "checks": None, "covers": None,
                      "unwinding_failure": False, "raw_tail": outs.get("codegen", "")[-3000:], "wall_s": None}
-            rows.append({"def": d, "N": N, "m": m, "unwind": unwind_bound(d, N, m), "result": r, "output": outs.get(h, ""), "cmd": cmd, "crate": root})
+            rows.append({"def": d, "N": N, "m": m, "unwind": unwind_bound(d, N, m), "result": r, "output": outs.get(h, ""), "cmd": cmd, "crate": roots[d["name"]]})
         return rows
 
     with cf.ThreadPoolExecutor(max_workers=len(groups) or 1) as ex:
